@@ -560,6 +560,10 @@ class Mitochondria:
             if isinstance(node.func, ast.Name):
                 func_name = node.func.id
                 if func_name in self.SAFE_FUNCTIONS:
+                    # Python's compiler refuses f(a=1, a=2); ast.parse alone lets it through
+                    kw_names = [kw.arg for kw in node.keywords if kw.arg is not None]
+                    if len(kw_names) != len(set(kw_names)):
+                        raise SyntaxError("keyword argument repeated")
                     func = self.SAFE_FUNCTIONS[func_name]
                     args = [self._compute_node(arg) for arg in node.args]
                     kwargs = {}
